@@ -174,6 +174,7 @@ fn main() {
         "meta" => misc::meta(&args),
         "purity" => misc::purity(&args),
         "faildepth" => ac::faildepth(&args),
+        "repr" => ac::repr(&args),
         x => {
             eprintln!("unknown check {}", x);
             std::process::exit(2);
